@@ -291,6 +291,15 @@ def stop_skip_family():
             groups.append((("and", W_, (k, tg)), {}, inputs, [("none",)], E))
             groups.append((("star", ("and", (k, tg), C_)), {}, inputs, [("none",)], E))
             groups.append((("group", ("and", ("opt", W_), (k, tg))), {}, inputs, [("none",)], E))
+    # SkipTo with fail_on, including pairs in which target and fail_on match at the SAME position (fail_on is asked first)
+    fpairs = [(W_, ("lit", "b")), (W_, ("lit", "ab")), (C_, C_), (("lit", "a"), W_), (W_, C_), (C_, ("lit", "x")), (("lit", "b"), ("lit", "a")),
+              (("mf", C_, ("lit", "b")), ("lit", "b")), (W_, ("kw", "a"))]
+    finputs = ["x b", "xx ab", ", b", "x ,b", "xa", "1 2 ab", "x a", "b", " ab", "x , a", "12 a b", ""]
+    for tg, fo in fpairs:
+        g = ("skiptof", tg, fo)
+        for gg in (g, ("and", g, W_), ("and", g, C_), ("mf", ("group", ("and", g, W_)), ("notin", "")) if False else ("mf", ("group", ("and", g, W_)), ("word", "ab12x, ")),
+                   ("and", ("opt", ("lit", "x")), g)):
+            groups.append((gg, {}, finputs, [("none",)], E))
     stops = [C_, ("lit", "b"), W_, ("mf", C_, ("lit", "b")), ("not", ("lit", "a")), ("and", ("lit", "a"), C_), ("stringend",), ("empty",)]
     bodies = [("lit", "a"), W_, ("notin", ","), ("and", ("lit", "a"), ("opt", ("lit", "b"))), ("mf", ("lit", "a"), ("lit", "b")), ("group", W_)]
     sinputs = ["a a b", "a a , a", "ab ba , b", "a  ,", "b", ", a", "a a", "", "a ,a, ", "aab a, b"]
